@@ -16,6 +16,7 @@ import numpy as np
 from harness import common as C
 from harness import c03 as K
 from harness import debiasers_corr as DC
+from harness import probes
 
 PROP = "C01"
 TARGETS = ["IbicusModel.Props.C01"]
@@ -98,6 +99,12 @@ def gen_case(rng, name, tier, k):
                     kind=rng.choice(["tas", "pr"]))
     windowed = name not in ("ISIMIP-window",) and (name == "ISIMIP" or rng.random() < 0.45)
     large = name == "CDFt" and k in LARGE_AT.get(tier, (0,))
+    # long equal-size samples for the rank transfer of non-parametric QM: index arithmetic n*q / (n-1)*q in floating point
+    LONG_N = [36525, 20000, 32768, 10957, 65536, 16384, 21915, 50000]
+    n_exact = None
+    if name == "QM-nonparametric" and (k < 2 or (tier != "quick" and k % 3 == 0)):
+        n_exact = LONG_N[k % len(LONG_N)] if k < 16 else rng.randint(10000, 70000)
+        windowed = False
     if large:
         windowed = False
     big = 8 if tier == "quick" else 9
@@ -117,6 +124,8 @@ def gen_case(rng, name, tier, k):
     if large:
         nyO = nyH = rng.randint(29, 32)
         equal = True
+    if n_exact:
+        equal = True
     ymode = None
     if name in ("QDM-absolute", "CDFt") and rng.random() < 0.5 and not large:
         ymode = rng.choice([[17, 9], [5, 3], [31, 1], [9, 9]])
@@ -124,6 +133,9 @@ def gen_case(rng, name, tier, k):
     rec = dict(config=name, mode=mode, ymode=ymode, nyO=nyO, nyH=nyH, equal=equal, y0=rng.randint(1950, 1990),
                np_seed=rng.randint(0, 2**31 - 1), short=(not windowed and not large and rng.random() < 0.3), sigma_bias=sigma_bias,
                sd_ratio=rng.choice([0.5, 1.0, 1.5, 2.0]))
+    if n_exact:
+        rec.update(n_exact=n_exact, short=False, ymode=None)
+    rec["kinds"] = [probes.pick_kind(rng) for _ in range(3)]  # the three time axes, each in one of the accepted encodings
     if name in PR_LIKE and k % 2 == 0:
         rec["flux"] = K.FLUX[(k // 2) % len(K.FLUX)]  # pr in kg m-2 s-1: magnitudes 1e-5 ... 1e-9
     return rec
@@ -134,6 +146,10 @@ def build(rec):
     name = rec["config"]
     dO = K.whole_years(rec["y0"], rec["nyO"])
     dH = dO if rec["equal"] else K.whole_years(rec["y0"] + (1 if rec["nyH"] != rec["nyO"] else 0), rec["nyH"])
+    if rec.get("n_exact"):
+        import datetime
+
+        dO = dH = K.dates_from(datetime.date(1901, 1, 1), int(rec["n_exact"]))
     if rec.get("short"):
         nO, nH = int(nprs.randint(2, 60)), int(nprs.randint(2, 60))
         if rec["equal"]:
@@ -215,7 +231,8 @@ def run_case(rec):
             yO, yH = 1980 + np.arange(obs.size) // 365, 1980 + np.arange(H.size) // 365
             out = deb._apply_on_window(obs, H, H.copy(), yO, yH, yH.copy())
         else:
-            out = deb.apply_location(obs, H, H.copy(), dO, dH, dH.copy())
+            kO, kH, kF = rec.get("kinds", ["date"] * 3)
+            out = deb.apply_location(obs, H, H.copy(), probes.present(dO, kO), probes.present(dH, kH), probes.present(dH, kF))
     want_n = obs.size if name.startswith("DC-") else H.size
     info = {"n_obs": int(obs.size), "n_hist": int(H.size), "clause": None}
     if out.shape != (want_n,) or not np.isfinite(out).all():
@@ -354,7 +371,8 @@ def run(tier, res, force_search=False, measure=False):
     # the public `apply` on small grids with any input dtype, and one parallel run on a 2 x 3 grid
     par = dict(config="apply/LS-additive", prop=PROP, debiaser="LS-additive", dtypes=["float64", "float64", "float64"], shape=[2, 3],
                n=rng.randint(100, 400), np_seed=rng.randint(0, 2**31 - 1), shift=rng.choice([-6.0, 2.0, 10.0]), parallel=True)
-    K.apply_cases(rng, tier, res, problems, PROP, extra=[par])
+    par1 = dict(par, shape=[1, 1], debiaser="ECDFM", config="apply/ECDFM", np_seed=rng.randint(0, 2**31 - 1))  # fewer cells than processes
+    K.apply_cases(rng, tier, res, problems, PROP, extra=[par, par1])
 
     seen = set()
     for p, rec in problems:
